@@ -14,19 +14,21 @@ use vstd::prelude::*;
 verus! {
 // ---- tokens: a 2-D array is (identity, which single column it has been collapsed to, if any); names are a list of column tags ----
 pub struct Axis1;
-pub struct ArrTok { pub id: Ghost<int>, pub ncols: Ghost<int>, pub col: Ghost<Option<int>> }
+pub struct ArrTok { pub id: Ghost<int>, pub ndim: Ghost<int>, pub ncols: Ghost<int>, pub col: Ghost<Option<int>> }     // ndim: 1 (single-target vector: ncols = 1) or 2
 pub struct WTok { pub id: Ghost<int> }
 pub struct NamesTok { pub tags: Ghost<Seq<int>> }
 impl ArrTok {
     #[verifier::external_body]
-    pub fn view(&self) -> (r: ArrTok) ensures r.id@ == self.id@, r.ncols@ == self.ncols@, r.col@ == self.col@ { unimplemented!() }
+    pub fn view(&self) -> (r: ArrTok) ensures r.id@ == self.id@, r.ndim@ == self.ndim@, r.ncols@ == self.ncols@, r.col@ == self.col@ { unimplemented!() }
     #[verifier::external_body]
-    pub fn as_targets(&self) -> (r: ArrTok) ensures r.id@ == self.id@, r.ncols@ == self.ncols@, r.col@ == self.col@ { unimplemented!() }
-    // ndarray collapse_axis(Axis(1), j): keeps only column j (panics out of range); the axis then has length 1
+    pub fn as_targets(&self) -> (r: ArrTok) ensures r.id@ == self.id@, r.ndim@ == self.ndim@, r.ncols@ == self.ncols@, r.col@ == self.col@ { unimplemented!() }
+    #[verifier::external_body]
+    pub fn ndim(&self) -> (r: usize) ensures r == self.ndim@ { unimplemented!() }
+    // ndarray collapse_axis(Axis(1), j): keeps only column j (panics out of range, and panics when the array has no axis 1); the axis then has length 1
     #[verifier::external_body]
     pub fn collapse_axis(&mut self, _a: Axis1, j: usize)
-        requires j < old(self).ncols@, old(self).col@ is None,
-        ensures final(self).id@ == old(self).id@, final(self).col@ == Some(j as int), final(self).ncols@ == 1,
+        requires old(self).ndim@ == 2, j < old(self).ncols@, old(self).col@ is None,
+        ensures final(self).id@ == old(self).id@, final(self).ndim@ == 2, final(self).col@ == Some(j as int), final(self).ncols@ == 1,
     { unimplemented!() }
     #[verifier::external_body]
     pub fn len_of(&self, _a: Axis1) -> (r: usize) ensures r == self.ncols@ { unimplemented!() }
@@ -51,6 +53,7 @@ pub struct DatasetV { pub records: ArrTok, pub targets: ArrTok, pub weights: WTo
 impl DatasetV {
     pub open spec fn wf(&self) -> bool {
         self.records.col@ is None && self.targets.col@ is None && self.records.ncols@ >= 0 && self.targets.ncols@ >= 0
+        && self.records.ndim@ == 2 && (self.targets.ndim@ == 2 || (self.targets.ndim@ == 1 && self.targets.ncols@ == 1))       // single-target datasets carry a 1-D target vector
         && self.records.ncols@ <= usize::MAX && self.targets.ncols@ <= usize::MAX
         // names, when present, name every column (DatasetBase::with_*_names checks the length)
         && (self.target_names.tags@.len() == 0 || self.target_names.tags@.len() == self.targets.ncols@)
@@ -87,7 +90,7 @@ impl<'b> DatasetIterV<'b> {
                     let v = r.unwrap();
                     &&& final(self).idx == old(self).idx + 1
                     &&& v.records.id@ == d.records.id@ && v.targets.id@ == d.targets.id@ && v.weights.id@ == d.weights.id@
-                    &&& !old(self).target_or_feature ==> v.targets.col@ == Some(j) && v.records.col@ is None
+                    &&& !old(self).target_or_feature ==> (if d.targets.ndim@ == 2 { v.targets.col@ == Some(j) } else { v.targets.col@ is None }) && v.records.col@ is None
                           && v.feature_names.tags@ == d.feature_names.tags@
                           && (v.target_names.tags@.len() == 0 || v.target_names.tags@ == seq![d.target_names.tags@[j]])
                     &&& old(self).target_or_feature ==> v.records.col@ == Some(j) && v.targets.col@ is None
